@@ -33,7 +33,7 @@ RULE = ('directed corpus (docstring examples; every one of the 35 sanitize keys 
         'level; aliasing; masks) then seeded random nested mappings of depth <= 4, width <= 5. '
         'non-trivial = a non-mapping argument, or a mapping with at least one sensitive str key, nested '
         'mapping or str value; distinct by (spec, secret, call style)')
-REQUIRED_CLAUSES = ['retry-after-a-failed-call-on-the-same-object', 'documented-keyword-call', 'key-list-cross-check', 'result-new-plain-dict', 'same-keys',
+REQUIRED_CLAUSES = ['under-warnings-as-errors', 'retry-after-a-failed-call-on-the-same-object', 'documented-keyword-call', 'key-list-cross-check', 'result-new-plain-dict', 'same-keys',
                     'sensitive-key-masked', 'mapping-under-sensitive-key-recursed',
                     'nested-mapping-processed', 'non-dict-mapping-nested',
                     'string-through-mask_password', 'string-changed-by-mask_password',
@@ -467,7 +467,7 @@ def _carries_key_text(k):
     return False
 
 
-def evaluate(ctx, case):
+def _evaluate_nomodes(ctx, case):
     from oslo_utils import strutils
     from vlib import callstyle
     strutils = callstyle.proxy(strutils)
@@ -593,6 +593,10 @@ def evaluate(ctx, case):
             ctx.h('key verdicts', c, st['kc-' + c])
     ctx.extra['max mapping levels in one argument'] = max(
         ctx.extra.get('max mapping levels in one argument', 0), st['levels'])
+
+
+from vlib import envmodes  # noqa: E402
+evaluate = envmodes.with_modes(_evaluate_nomodes, warn=lambda case: True)
 
 
 # ----------------------------------------------------------------------
